@@ -370,10 +370,11 @@ CMDResult CMD_FilterList(Boolean Negate, char const* Arg) {
         if (p != NULL) {
             *p = '\0';
         }
-        FTemp = ConstLongInt(Copy, &err, 10);
-        if (!err) {
+        LongInt Value = ConstLongInt(Copy, &err, 10);
+        if (!err || (Value < 0) || (Value > 255)) {
             return CMDErr;
         }
+        FTemp = Value;
 
         for (Search = 0; Search < FilterCnt; Search++) {
             if (FilterBytes[Search] == FTemp) {
@@ -386,6 +387,9 @@ CMDResult CMD_FilterList(Boolean Negate, char const* Arg) {
         }
 
         else if ((!Negate) && (Search >= FilterCnt)) {
+            if (FilterCnt >= (int)(sizeof(FilterBytes) / sizeof(*FilterBytes))) {
+                return CMDErr;
+            }
             FilterBytes[FilterCnt++] = FTemp;
         }
 
